@@ -173,10 +173,10 @@ package at
 //@   trusted
 //@   ensures true
 //@ ext (*seata.apache.org/seata-go/pkg/datasource/sql/types.RoundRecordImage).AppendBeofreImage
-//@   modifies *self, *image
+//@   modifies *self, image.index
 //@   ensures true
 //@ ext (*seata.apache.org/seata-go/pkg/datasource/sql/types.RoundRecordImage).AppendAfterImage
-//@   modifies *self, *image
+//@   modifies *self, image.index
 //@   ensures true
 //@ func (*insertExecutor).ExecContext
 //@   prop C03
@@ -198,6 +198,41 @@ package at
 //@   modifies heap.all, ghost.all
 //@   ensures statement-before-success: result1 == nil ==> called("callback:f#1") && callres("callback:f#1", 1) == nil && result0 == callres("callback:f#1", 0)
 //@   ensures locked-image-is-the-recorded-one: result1 == nil ==> called("beforeImage#1") && callres("beforeImage#1", 1) == nil && called("AppendBeofreImage#1") && callarg("AppendBeofreImage#1", 1) == callres("beforeImage#1", 0)
+//@   may_panic
+
+// C01: what the images record. A NULL column is recorded as nil - never as the zero value of its type,
+// which rollback would then write back in place of the NULL - and a present value as itself.
+//@ func getSqlNullValue
+//@   prop C01
+//@   ensures null-string-stays-null: isT(value, sql.NullString) && !value.(sql.NullString).Valid ==> result == nil
+//@   ensures null-float-stays-null: isT(value, sql.NullFloat64) && !value.(sql.NullFloat64).Valid ==> result == nil
+//@   ensures null-bool-stays-null: isT(value, sql.NullBool) && !value.(sql.NullBool).Valid ==> result == nil
+//@   ensures null-time-stays-null: isT(value, sql.NullTime) && !value.(sql.NullTime).Valid ==> result == nil
+//@   ensures null-byte-stays-null: isT(value, sql.NullByte) && !value.(sql.NullByte).Valid ==> result == nil
+//@   ensures null-int16-stays-null: isT(value, sql.NullInt16) && !value.(sql.NullInt16).Valid ==> result == nil
+//@   ensures null-int32-stays-null: isT(value, sql.NullInt32) && !value.(sql.NullInt32).Valid ==> result == nil
+//@   ensures null-int64-stays-null: isT(value, sql.NullInt64) && !value.(sql.NullInt64).Valid ==> result == nil
+//@   ensures string-value: isT(value, sql.NullString) && value.(sql.NullString).Valid ==> isT(result, string) && result.(string) == value.(sql.NullString).String
+//@   ensures int64-value: isT(value, sql.NullInt64) && value.(sql.NullInt64).Valid ==> isT(result, int64) && result.(int64) == value.(sql.NullInt64).Int64
+//@   ensures int32-value: isT(value, sql.NullInt32) && value.(sql.NullInt32).Valid ==> isT(result, int32) && result.(int32) == value.(sql.NullInt32).Int32
+//@   ensures bool-value: isT(value, sql.NullBool) && value.(sql.NullBool).Valid ==> isT(result, bool) && result.(bool) == value.(sql.NullBool).Bool
+//@   ensures other-values-are-kept: !isT(value, sql.NullString) && !isT(value, sql.NullFloat64) && !isT(value, sql.NullBool) && !isT(value, sql.NullTime) && !isT(value, sql.NullByte) && !isT(value, sql.NullInt16) && !isT(value, sql.NullInt32) && !isT(value, sql.NullInt64) ==> result == value
+//@   nopanic
+
+// INSERT..ON DUPLICATE KEY UPDATE: the images are typed by what was there before the statement - a row
+// that existed is restored (UPDATE), a row that did not is deleted (INSERT). Typed by anything else, the
+// undo executor chosen at rollback does not compensate what the statement did.
+//@ func (*insertOnUpdateExecutor).beforeImage
+//@   trusted
+//@   ensures true
+//@ func (*insertOnUpdateExecutor).ExecContext
+//@   prop C01 C03
+//@   requires i != nil && i.execContext != nil && i.execContext.TxCtx != nil && i.execContext.TxCtx.LockKeys != nil && i.execContext.TxCtx.RoundImages != nil && ctx != nil && f != nil
+//@   modifies heap.all, ghost.all
+//@   ensures statement-before-success: result1 == nil ==> called("callback:f#1") && callres("callback:f#1", 1) == nil && result0 == callres("callback:f#1", 0)
+//@   ensures both-images-recorded: result1 == nil ==> called("beforeImage#1") && callres("beforeImage#1", 1) == nil && called("afterImage#1") && callres("afterImage#1", 1) == nil && called("AppendBeofreImage#1") && callarg("AppendBeofreImage#1", 1) == callres("beforeImage#1", 0) && called("AppendAfterImage#1") && callarg("AppendAfterImage#1", 1) == callres("afterImage#1", 0)
+//@   ensures C01/existing-row-is-an-update: result1 == nil && called("beforeImage#1") && called("afterImage#1") && len(callres("beforeImage#1", 0).Rows) > 0 ==> callres("beforeImage#1", 0).SQLType == types.SQLTypeUpdate && callres("afterImage#1", 0).SQLType == types.SQLTypeUpdate
+//@   ensures C01/new-row-is-an-insert: result1 == nil && called("beforeImage#1") && called("afterImage#1") && len(callres("beforeImage#1", 0).Rows) == 0 ==> callres("beforeImage#1", 0).SQLType == types.SQLTypeInsert && callres("afterImage#1", 0).SQLType == types.SQLTypeInsert
 //@   may_panic
 
 // multi-statement executors: one image for all statements, same rule
